@@ -20,8 +20,8 @@ Theorem C04_print_format : forall p0 pieces args,
 Proof. exact print_format_spec. Qed.
 
 (* A request that finds no answer on an exhausted node writes nothing. *)
-Theorem C04_no_output_after_exhaustion : forall kb fuel nd w nd' r c w',
-  dead nd -> next kb fuel nd w = Ok (nd', r, c, w') -> r = None /\ c = false /\ w' = w /\ dead nd'.
+Theorem C04_no_output_after_exhaustion : forall kb bf fuel nd w nd' r c w',
+  dead nd -> next kb bf fuel nd w = Ok (nd', r, c, w') -> r = None /\ c = false /\ w' = w /\ dead nd'.
 Proof. exact dead_stays. Qed.
 
 Example C04_witness :
